@@ -144,8 +144,8 @@ def monotonic_factorization(arr: ArrayType1D) -> Tuple[int, np.ndarray, pd.Index
 
     if pd_type.kind == "M":
         arr, orig_type = _convert_timestamp_to_tz_unaware(arr)
-        if not isinstance(orig_type, pa.DataType):
-            # a raw pyarrow type is not a pandas dtype: keep the ArrowDtype found above
+        if isinstance(orig_type, (np.dtype, pd.api.extensions.ExtensionDtype)):
+            # raw pyarrow / polars types are not pandas dtypes: keep the ArrowDtype found above
             pd_type = orig_type
 
     if getattr(pd_type, "kind", "O") not in "iufbmM":
@@ -520,7 +520,7 @@ def factorize_2d(
         names=[get_array_name(lvl) for lvl in labels],
     )
 
-    if sort:
+    if sort and len(multi_index) > 0:
         argsort = multi_index.argsort()
         null = combined_codes == -1
         combined_codes = np.argsort(argsort)[combined_codes]
